@@ -83,7 +83,17 @@ def parser_view(args):
     with quiet_stdout():
         root = ctx.parse("{{T|" + "|".join(args) + "}}")
     node = root.children[0]
-    return dict(node.template_parameters)
+    first = dict(node.template_parameters)
+    # the usual "try: params[k] except KeyError" idiom on absent names must leave the view unchanged
+    for k in ("absent-name", 97):
+        try:
+            node.template_parameters[k]
+        except KeyError:
+            pass
+    again = dict(node.template_parameters)
+    if again != first:
+        fail("c14:parser-view#stable-under-lookups-of-absent-names", f"{first} became {again}", {"args": args})
+    return first
 
 
 def expected(args):
